@@ -15,7 +15,11 @@ import (
 	"encoding/json"
 	"fmt"
 	"math/rand"
+	"os"
+	"os/exec"
+	"path/filepath"
 	"strings"
+	"time"
 
 	"github.com/yuin/goldmark"
 )
@@ -157,6 +161,9 @@ func runC15(c *Ctx) {
 	RunTLC(TLCOpts{Module: "HeadingIDs", Cfg: "HeadingIDs_neg_shared.cfg", Workers: 2}).MustViolate("neg SharedTable", "HistoryIndependent")
 	RunTLC(TLCOpts{Module: "HeadingIDs", Cfg: "HeadingIDs_neg_counter.cfg", Workers: 2}).MustViolate("neg Counter", "Distinct")
 	ev.Set("negative_controls", []string{"SharedTable => HistoryIndependent violated", "Counter (suffix without probing) => Distinct violated"})
+
+	// ---- supplementary: the uniqueness argument as an inductive invariant (Apalache)
+	c15Apalache(c)
 
 	// ---- M2C
 	type seq struct {
@@ -318,5 +325,35 @@ func runC15(c *Ctx) {
 	}
 	if len(bad) > 0 && c.NumViolations() == 0 && len(c.known) == 0 {
 		infra("TraceHeadingIDs rejected %d documents but none reproduced in isolation", len(bad))
+	}
+}
+
+// c15Apalache discharges, with Apalache, that IndInv of spec/apalache/HeadingIDsInd.tla (every id
+// handed out is in the table, no id handed out twice) holds initially and is preserved by every
+// step from ANY table satisfying it - an argument that does not depend on TLC's bounds.
+// Supplementary: a failure or a missing tool is a warning, never a verdict.
+func c15Apalache(c *Ctx) {
+	src, err := os.ReadFile(filepath.Join(verifRoot(), "spec", "apalache", "HeadingIDsInd.tla"))
+	if err != nil {
+		c.Warn("C15/apalache-not-run", err.Error())
+		return
+	}
+	dir := newWorkDir("apalache")
+	defer os.RemoveAll(dir)
+	must(os.WriteFile(filepath.Join(dir, "HeadingIDsInd.tla"), src, 0o644))
+	ok := true
+	t0 := time.Now()
+	for _, step := range [][]string{{"--init=Init", "--length=0"}, {"--init=IndInit", "--length=1"}} {
+		args := append([]string{"180", "apalache-mc", "check", "--out-dir=" + filepath.Join(dir, "out"), "--cinit=CInit", "--inv=IndInv"}, step...)
+		cmd := exec.Command("timeout", append(args, "HeadingIDsInd.tla")...)
+		cmd.Dir = dir
+		out, _ := cmd.CombinedOutput()
+		if !strings.Contains(string(out), "EXITCODE: OK") {
+			ok = false
+			c.Warn("C15/apalache-inductive-step-not-discharged", fmt.Sprintf("%v: %s", step, lastN(string(out), 400)))
+		}
+	}
+	if ok {
+		c.Ev.Set("apalache_inductive_invariant", fmt.Sprintf("HeadingIDsInd.tla: Init => IndInv and IndInv /\\ Next => IndInv' discharged by Apalache in %.1f s (3 slug bases, suffixes up to 4, any table of up to 15 ids)", time.Since(t0).Seconds()))
 	}
 }
